@@ -158,7 +158,7 @@ def plan(tier, seed):
     if tier == "thorough":
         slices, per, seeds, models, cuts = 48, 6, 3, ["stacked", "tree"], 96
     else:
-        slices, per, seeds, models, cuts = 16, 5, 1, ["stacked"], 24
+        slices, per, seeds, models, cuts = 32, 5, 1, ["stacked"], 32
     n = 0
     for s in range(slices):
         for k in range(seeds):
@@ -168,7 +168,7 @@ def plan(tier, seed):
                 n += 1
     # a second look at the first slices under the other borrow model in the quick tier
     if tier != "thorough":
-        for s in range(4):
+        for s in range(16):
             jobs.append({"part": "cutfree", "first": s * per, "count": per, "corpus_seed": seed, "miri_seed": seed * 1000 + 500 + s,
                          "preemption": rates[s % 3], "model": "tree"})
     for c in range(cuts):
@@ -325,6 +325,7 @@ def main():
             "rule": "one evaluation = one generated scenario (program + call history incl. timer operations) executed to the end under Miri with one (scheduler seed, preemption rate, borrow model); distinct = different (corpus part, scenario index, Miri seed, borrow model); non-trivial = the scenario completed inside a job that executed at least one API operation. Scenarios of the cut part that stop at the known finding are counted as known-finding hits, not as evaluations.",
             "samples": samples,
             "jobs": len(jobs), "jobs_completed_clean": completed_jobs,
+            "slowest_job_s": max([r["wall_s"] for r in results] + [0]),
             "corpus_tally": tally,
             "known_findings_reobserved": known_hits,
             "miri_version": ver,
